@@ -552,7 +552,7 @@ func Document(r *core.Rand, o Opts) *Out {
 						idOnNextLine = false
 					}
 					if r.Chance(1, 5) {
-						cont = r.Pick(" ", "  ", "   ") + cont // vertically aligned text
+						cont = r.Pick(" ", "  ", "   ", "\t", "\t\t", " \t", "\t- ") + cont // vertically aligned text, nested lists
 					}
 					if ref.IsBlankSpec(cont) {
 						cont = "x"
